@@ -292,4 +292,18 @@ example : urlencode [("a b".toList, "x&y".toList), ("k".toList, [])] = "a+b=x%26
 
 example : kept false [("a".toList, []), ("a".toList, "1".toList)] = [("a".toList, "1".toList)] := by decide
 
+/-- **the body is never read beyond the declared length, whatever the handler asks for**: any sequence of
+    `req.read(k)` / `req.read()` calls returns consecutive pieces of `wsgi.input` which together are a
+    prefix of its first `Content-Length` bytes -/
+theorem C10_reads_prefix (cl : Nat) (src : Bytes) (ks : List (Option Nat)) :
+    (Poor.Query.reqReads ⟨cl, src⟩ ks).1.flatten <+: src.take cl :=
+  Poor.Query.reqReads_prefix cl src ks
+
+/-- ... and what is not returned is still in the stream: nothing is skipped or taken twice -/
+theorem C10_reads_conserve (cl : Nat) (src : Bytes) (ks : List (Option Nat)) :
+    (Poor.Query.reqReads ⟨cl, src⟩ ks).1.flatten ++ (Poor.Query.reqReads ⟨cl, src⟩ ks).2.src = src :=
+  (Poor.Query.reqReads_spec ⟨cl, src⟩ ks).1
+
+example : (Poor.Query.reqReads ⟨4, [1, 2, 3, 4, 5, 6]⟩ [some 1, none, some 9]).1 = [[1], [2, 3, 4], []] := by decide
+
 end Poor.Props.C10
